@@ -101,6 +101,25 @@ fn main() {
             got == want
         }
         // C08: x /= 0 for a primitive integer must panic
+        // C08: 1 / 0 (primitive one over a zero decimal) must panic like every other zero-divisor form
+        "one_div_zero" => {
+            let r = std::panic::catch_unwind(|| {
+                let z = BigDecimal::from(0);
+                let zs: BigDecimal = "0.000".parse().unwrap();
+                (1u8 / z.clone(), 1i64 / &z, 1u128 / zs, 7i32 / z.clone())
+            });
+            match &r {
+                Ok(v) => println!("1u8 / 0 = {}, 1i64 / &0 = {}, 1u128 / 0.000 = {} (no panic)", v.0, v.1, v.2),
+                Err(_) => println!("panicked"),
+            }
+            // every component must panic on its own
+            let a = std::panic::catch_unwind(|| 1u8 / BigDecimal::from(0)).is_err();
+            let b = std::panic::catch_unwind(|| 1i64 / &BigDecimal::from(0)).is_err();
+            let c = std::panic::catch_unwind(|| 1u128 / "0.000".parse::<BigDecimal>().unwrap()).is_err();
+            let d = std::panic::catch_unwind(|| 7i32 / BigDecimal::from(0)).is_err();
+            println!("panics: 1u8/0 {}  1i64/&0 {}  1u128/0.000 {}  7i32/0 {}", a, b, c, d);
+            a && b && c && d
+        }
         "div_assign_zero" => {
             let r = std::panic::catch_unwind(|| {
                 let mut x = dec(&args[2]);
